@@ -256,6 +256,23 @@ def run(ctx: Ctx) -> int:
             details={"raises": sorted(raises), "declared": sorted(declared)},
         )
 
+    # the wrapper turns every declared deserializer exception into ValueError - the one class the type-hint
+    # layer retries on (text the loader pre-read as null / list / dict is re-tried as the original string)
+    rtd = ctx.func("typing:RegisteredType.deserializer")
+    hrs = [h for t in walk_local(rtd) if isinstance(t, ast.Try) for h in t.handlers]
+    ok = bool(hrs)
+    bad_r = None
+    for h in hrs:
+        for r in [x for x in ast.walk(h) if isinstance(x, ast.Raise)]:
+            e = r.exc
+            if isinstance(e, ast.Name):
+                ds = [s for s in ast.walk(h) if isinstance(s, ast.Assign) and any(isinstance(t, ast.Name) and t.id == e.id for t in s.targets)]
+                e = ds[0].value if len(ds) == 1 else e
+            if not (isinstance(e, ast.Call) and isinstance(e.func, ast.Name) and e.func.id == "ValueError"):
+                ok = False
+                bad_r = r
+    ctx.oblige("C20.h", ok, bad_r or rtd, "RegisteredType.deserializer re-raises every declared deserializer exception as ValueError" if ok else "RegisteredType.deserializer re-raises something other than a ValueError: a TypeError from the base deserializer (text the loader read as null / list / dict) skips the retry with the original string, so valid values such as the string 'null' are rejected", fn=rtd, construct="wrapper raises ValueError")
+
     # (iii) language agreement: range
     rs, rd = ctx.func("typing:range_serializer"), ctx.func("typing:range_deserializer")
     ctx.expect_locals(rd, ["value", "match"])
